@@ -36,6 +36,7 @@ PROD_HISTS = P.producer_histories()
 CONS_STATES, CONS_TRANSITIONS, CONS_HISTORIES = P.state_graph()
 COMPILED_STATES, COMPILED_TRANSITIONS, COMPILED_HISTORIES = P.state_graph(
     P.COMPILED_CONS_OPS, P.compiled_step)
+DIGEST_HISTORIES, DIGEST_STATES = P.digest_histories()
 
 
 def orders_for(entry):
@@ -201,6 +202,8 @@ def produce(tier, cfg, outdir, sel="all"):
         for proto in P.protocols_for(e, tier):
             g = groups[proto] = {}
             for hi, hist in enumerate(PROD_HISTS):
+                if "digest" in hist and (compiled or proto not in P.DIGEST_PROTOCOLS):
+                    continue
                 n_hist += 1
                 data = None
                 try:
@@ -228,6 +231,8 @@ def produce(tier, cfg, outdir, sel="all"):
                                                       phist=hi, proto=proto,
                                                       detail="a fresh clone is not == in the "
                                                              "producer"))
+                        elif op == "digest":
+                            digests(o)          # outcomes (keys or refusals) are compared later
                         else:
                             data = pickle.dumps(o, proto)
                 except RecursionError:
@@ -271,6 +276,7 @@ def run_order(order, data, make):
     s = set()
     last = None          # name under which the (single) key was stored last
     ins_u = ins_l = False
+    ku = kl = False
     n = 0
     op = "?"
     try:
@@ -293,6 +299,15 @@ def run_order(order, data, make):
                     hl = h
                 if hu is not None and hl is not None and hu != hl:
                     return n, ("hash-differs", "hash(unpickled) != hash(local)")
+            elif op == "D":
+                # persistent keys of every object that has none yet (KeyBuilder caches the key
+                # in a per-instance attribute); the keys themselves are compared elsewhere
+                if u is not None and not ku:
+                    digests(u)
+                    ku = True
+                if l is not None and not kl:
+                    digests(l)
+                    kl = True
             elif op == "E":
                 if not (u == l) or not (l == u):
                     return n, ("eq-false", "unpickled == local is False")
@@ -487,7 +502,14 @@ class Consumer:
                     got = True
             if got and count:
                 self.consumed.append((pc, e["name"]))
+        fam = e["family"] if e["family"] != "variant" else self.by_name[e["base"]]["family"]
+        with_digest = fam in P.DIGEST_FAMILIES[self.tier]
+        base_orders, base_nstates = orders, nstates
         for proto in sorted(merged):
+            if with_digest and proto in P.DIGEST_PROTOCOLS:
+                orders, nstates = base_orders + DIGEST_HISTORIES, base_nstates + DIGEST_STATES
+            else:
+                orders, nstates = base_orders, base_nstates
             for data, sources in merged[proto].items():
                 counters["pickles_distinct"] += 1
                 counters["pair_pickles_covered"] += len(sources)
